@@ -507,6 +507,144 @@ def _(T):
 
 
 # ----------------------------------------------------------------------------
+# rendering.py: constants and structural facts of the render layer
+# ----------------------------------------------------------------------------
+
+def _bn_coeffs(fn, src):
+    """`bn = A * n - B`"""
+    for node in ast.walk(fn):
+        if isinstance(node, ast.Assign) and len(node.targets) == 1 and isinstance(node.targets[0], ast.Name) \
+                and node.targets[0].id == "bn":
+            v = node.value
+            if isinstance(v, ast.BinOp) and isinstance(v.op, ast.Sub) and isinstance(v.left, ast.BinOp) \
+                    and isinstance(v.left.op, ast.Mult):
+                l, r = v.left.left, v.left.right
+                try:
+                    a = num(l, src)
+                    other = r
+                except Miss:
+                    a = num(r, src)
+                    other = l
+                if not (isinstance(other, ast.Name) and other.id == "n"):
+                    raise Miss("bn is not linear in n")
+                return [fr(a), fr(num(v.right, src))]
+    raise Miss("bn assignment not found")
+
+
+def _ramp_const(init, target, src):
+    """the constant standing for pi in a PSF phase ramp: ['pi'] or ['literal', num, den]"""
+    for node in ast.walk(init):
+        if isinstance(node, ast.Assign) and len(node.targets) == 1 and isinstance(node.targets[0], ast.Name) \
+                and node.targets[0].id == target:
+            pis = [n for n in ast.walk(node.value) if is_pi(n)]
+            lits = [n for n in ast.walk(node.value) if isinstance(n, ast.Constant) and isinstance(n.value, float)
+                    and 3.0 < n.value < 3.3]
+            if len(pis) == 1 and not lits:
+                return ["pi"]
+            if len(lits) == 1 and not pis:
+                return ["literal"] + fr(num(lits[0], src))
+            raise Miss(f"{target}: cannot identify the pi constant")
+    raise Miss(f"{target} not found")
+
+
+def _dotted(node):
+    """dotted name of a call target, '' if it is not a plain attribute chain"""
+    parts = []
+    while isinstance(node, ast.Attribute):
+        parts.append(node.attr)
+        node = node.value
+    if isinstance(node, ast.Name):
+        parts.append(node.id)
+        return ".".join(reversed(parts))
+    return ""
+
+
+class _Sym:
+    """tiny evaluator: expressions over params[...] (-> 0) and psf_shape[k] (-> s)"""
+    def __init__(self, s):
+        self.s = s
+
+    def ev(self, node, src):
+        if isinstance(node, ast.Subscript):
+            seg = ast.get_source_segment(src, node) or ""
+            if "psf_shape" in seg:
+                return Fraction(self.s)
+            if "params" in seg:
+                return Fraction(0)
+            raise Miss("unknown subscript " + seg)
+        if isinstance(node, ast.BinOp):
+            a, b = self.ev(node.left, src), self.ev(node.right, src)
+            return {ast.Add: a + b, ast.Sub: a - b, ast.Mult: a * b,
+                    ast.Div: (a / b if b != 0 else None)}[type(node.op)]
+        if isinstance(node, ast.UnaryOp) and isinstance(node.op, ast.USub):
+            return -self.ev(node.operand, src)
+        return num(node, src)
+
+
+@extractor("render_consts")
+def _(T):
+    tree, src = T["rendering.py"]
+    out = {}
+    out["bn2d"] = _bn_coeffs(find_func(tree, "render_sersic_2d"), src)
+    out["bn1d"] = _bn_coeffs(find_func(tree, "sersic1D"), src)
+    init = find_func(tree, "__init__", cls="BaseRenderer")
+    out["rampX"] = _ramp_const(init, "fft_shift_arr_x", src)
+    out["rampY"] = _ramp_const(init, "fft_shift_arr_y", src)
+    # PixelRenderer.render_pointsource: offset subtracted from the position, and coordinate order
+    ps = find_func(tree, "render_pointsource", cls="PixelRenderer")
+    offs = {}
+    for node in ast.walk(ps):
+        if isinstance(node, ast.Assign) and len(node.targets) == 1 and isinstance(node.targets[0], ast.Name) \
+                and node.targets[0].id in ("dx", "dy"):
+            # position - offset(s): evaluate with the position at 0 → -offset
+            o10, o20 = -_Sym(10).ev(node.value, src), -_Sym(20).ev(node.value, src)
+            if (o10, o20) == (Fraction(9, 2), Fraction(19, 2)):
+                offs[node.targets[0].id] = True
+            elif (o10, o20) == (Fraction(5), Fraction(10)):
+                offs[node.targets[0].id] = False
+            else:
+                raise Miss(f"unrecognised PSF centre offset {o10}, {o20}")
+    if set(offs) != {"dx", "dy"} or offs["dx"] != offs["dy"]:
+        raise Miss("point-source offsets not found / inconsistent")
+    out["psCentreGeometric"] = offs["dx"]
+    coords = None
+    for node in ast.walk(ps):
+        if isinstance(node, ast.Call) and _dotted(node.func).endswith("map_coordinates") and len(node.args) >= 2 \
+                and isinstance(node.args[1], (ast.List, ast.Tuple)) and len(node.args[1].elts) == 2:
+            coords = node.args[1].elts
+    if coords is None:
+        raise Miss("map_coordinates call not found")
+    seg0 = ast.get_source_segment(src, coords[0]) or ""
+    seg1 = ast.get_source_segment(src, coords[1]) or ""
+    if "self.Y" in seg0 and "self.X" in seg1 and "dy" in seg0 and "dx" in seg1:
+        out["psRowsByY"] = True
+    elif "self.X" in seg0 and "self.Y" in seg1 and "dx" in seg0 and "dy" in seg1:
+        out["psRowsByY"] = False
+    else:
+        raise Miss("unrecognised coordinate order in map_coordinates")
+    # constructor defaults
+    d = defaults_of(find_func(tree, "__init__", cls="PixelRenderer"))
+    out["os_pixel_size"] = fr(num(d["os_pixel_size"], src))
+    out["num_os"] = fr(num(d["num_os"], src))
+    d = defaults_of(find_func(tree, "__init__", cls="HybridRenderer"))
+    for k in ("frac_start", "frac_end", "n_sigma", "num_pixel_render", "precision"):
+        out[k] = fr(num(d[k], src))
+    d2 = defaults_of(find_func(tree, "__init__", cls="FourierRenderer"))
+    for k in ("frac_start", "frac_end", "n_sigma", "precision"):
+        if fr(num(d2[k], src)) != out[k]:
+            raise Miss(f"Fourier/Hybrid default {k} differ")
+    # n_ax grid
+    fi = find_func(tree, "__init__", cls="FourierRenderer")
+    for node in ast.walk(fi):
+        if isinstance(node, ast.Call) and _dotted(node.func).endswith("linspace") and len(node.args) >= 2:
+            out["n_ax"] = [fr(num(node.args[0], src)), fr(num(node.args[1], src)),
+                           fr(num({k.arg: k.value for k in node.keywords}["num"], src))]
+    if "n_ax" not in out:
+        raise Miss("n_ax grid not found")
+    return out
+
+
+# ----------------------------------------------------------------------------
 # Lean emission
 # ----------------------------------------------------------------------------
 
@@ -532,6 +670,7 @@ def emit(c):
     A("import PysersicModel.IO.Validate")
     A("import PysersicModel.IO.Results")
     A("import PysersicModel.Prob.Loss")
+    A("import PysersicModel.Render.Renderers")
     A("")
     A("namespace Pysersic.Gen")
     A("")
@@ -581,6 +720,28 @@ def emit(c):
     A(f"def wrapTest : Results.NameTest := {lean_name_test(rt['wrap'])}")
     A(f"def dropTest : Results.NameTest := {lean_name_test(rt['drop'])}")
     A(f"def modelTest : Results.NameTest := {lean_name_test(rt['model'])}")
+    A("")
+    rc = c["render_consts"]
+    ramp = lambda r: ".pi" if r[0] == "pi" else f".literal {lean_q(r[1:])}"  # noqa: E731
+    A("/-- rendering.py: `bn = A*n - B` in render_sersic_2d and in sersic1D -/")
+    A(f"def bn2d : Render.BnC := ⟨{lean_q(rc['bn2d'][0])}, {lean_q(rc['bn2d'][1])}⟩")
+    A(f"def bn1d : Render.BnC := ⟨{lean_q(rc['bn1d'][0])}, {lean_q(rc['bn1d'][1])}⟩")
+    A("/-- the constant standing for π in the two PSF phase ramps (BaseRenderer.__init__) -/")
+    A(f"def rampX : Render.RampConst := {ramp(rc['rampX'])}")
+    A(f"def rampY : Render.RampConst := {ramp(rc['rampY'])}")
+    A("/-- how PixelRenderer.render_pointsource addresses the PSF stamp -/")
+    A(f"def psConv : Render.PsConv := ⟨{b(rc['psRowsByY'])}, {b(rc['psCentreGeometric'])}⟩")
+    A("/-- constructor defaults of the renderers -/")
+    A(f"def defaultOs : Nat := {rc['os_pixel_size'][0]}")
+    A(f"def defaultNumOs : Nat := {rc['num_os'][0]}")
+    A(f"def defaultFracStart : Q := {lean_q(rc['frac_start'])}")
+    A(f"def defaultFracEnd : Q := {lean_q(rc['frac_end'])}")
+    A(f"def defaultNSigma : Nat := {rc['n_sigma'][0]}")
+    A(f"def defaultNpr : Nat := {rc['num_pixel_render'][0]}")
+    A(f"def defaultPrecision : Nat := {rc['precision'][0]}")
+    A(f"def nAxLo : Q := {lean_q(rc['n_ax'][0])}")
+    A(f"def nAxHi : Q := {lean_q(rc['n_ax'][1])}")
+    A(f"def nAxNum : Nat := {rc['n_ax'][2][0]}")
     A("")
     A("end Pysersic.Gen")
     return "\n".join(L) + "\n"
